@@ -53,3 +53,21 @@ Print Assumptions C14_qmark_dropped_iff.
 Theorem C14_no_rewrite_when_important : forall names url, rewritten_url true names url = None.
 Proof. exact no_rewrite_when_important. Qed.
 Print Assumptions C14_no_rewrite_when_important.
+
+(* ------------------------------------------------------------------ translator tie: the control
+   structure of src/blocker.rs as extracted on this run (Generated.BlockerGen) *)
+From Coq Require Import String.
+From Adb Require Import Generated Struct_Proofs.
+Import Generated.BlockerGen.
+
+(* the removeparam list is never fused (neither by Blocker::new nor by Blocker::optimize): every
+   matching rule keeps its own parameter name; and the rewrite is guarded by `important` *)
+Theorem C14_src_removeparam_never_optimized :
+  named optimize_lists "removeparam" = false
+  /\ forallb (fun x => negb (String.eqb (fst (fst x)) "removeparam" && snd x)) new_lists = true.
+Proof. exact removeparam_never_optimized. Qed.
+Print Assumptions C14_src_removeparam_never_optimized.
+
+Theorem C14_src_rewrite_guard : rewrite_suppressed_by = "important"%string.
+Proof. exact rewrite_guard_is_important. Qed.
+Print Assumptions C14_src_rewrite_guard.
